@@ -234,7 +234,14 @@ def run(F, R, tier):
         nb = H.unlet(H.body_of(bm))
         t = H.render(nb)
         ins = [c for c in H.walk(nb) if c.get("k") == "mcall" and c["m"] == "insert" and len(c.get("args", [])) == 2]
-        kv = [(DT.canon_text(c["args"][0]), DT.canon_text(c["args"][1])) for c in ins]
+        lets_m = {x["pat"]["id"]: x["init"] for x in H.walk(nb) if x.get("k") == "let" and x.get("pat", {}).get("k") == "bind" and x.get("init") is not None}
+        def src_(e):
+            # a key / value given a name first (`let key = self.stack[i].clone();`) is the element it was read from
+            e2 = H.strip(e)
+            if H.is_local(e2) and H.local_id(e2) in lets_m:
+                return lets_m[H.local_id(e2)]
+            return e
+        kv = [(DT.canon_text(src_(c["args"][0])), DT.canon_text(src_(c["args"][1]))) for c in ins]
         m_ = re.fullmatch(r"self\.stack\[(\w+)\]", kv[0][0]) if len(kv) == 1 else None
         stepping = "step_by(2)" in t
         if not stepping and m_ is not None:
